@@ -60,6 +60,7 @@ type VC struct {
 	heapLayer  map[string]heapLayer // heap term -> what it changes relative to its base heap
 	preRids    map[string]bool      // rid terms known to be below the entry allocation counter
 	freshRids  map[string]bool      // rid terms of objects allocated by the function (>= entry counter)
+	effectFreeFuncs map[string]bool // function values declared effectfree() by a contract
 	captured   []capturedCell // cells of the variables a closure under contract captures
 	declsCache string // type declarations, frozen before obligations are solved in parallel
 	entryAlloc Term
@@ -746,6 +747,7 @@ func (vc *VC) rangeAssumption(v Term, t types.Type, alloc Term) Term {
 type capturedCell struct {
 	addr Term
 	ty   types.Type
+	root ssa.Value // the Alloc or FreeVar whose cell this is (to find the stores into it)
 }
 
 // sortedKeys: map keys in a fixed order, so that generated names and queries do not depend on
